@@ -69,13 +69,6 @@ Sig(name, c, e, isRand) ==
          /\ ~isRand /\ c.ep \in {"v2.insert", "v2.update"} /\ e.status = 200 /\ e.nfail > 0 /\ e.pre = e.post /\ e.crashed = 0
          /\ \/ c.k = "str" /\ c.s = "" /\ c.p = "points/0/str"
             \/ c.k = "elemstr" /\ c.s = "" /\ c.p = "points/0/tags"
-    [] name = "C18-msgpack-number-width" ->
-         \* valid MessagePack numbers refused because of their wire width: float64 where the request schema is typed
-         \* float32 (query vectors, v1 vectors, alpha, weight), int8 / int16 / uint8 / uint16 in an integer-indexed point field
-         /\ ~isRand /\ c.enc = "mp" /\ c.lab = "accept" /\ Refused400(e)
-         /\ \/ c.k = "elem" /\ c.s = "f64" /\ c.t = "vec" /\ c.ep \notin {"v2.insert", "v2.update"}
-            \/ c.k = "f64" /\ c.t = "float"
-            \/ c.k = "mpint" /\ c.s \in {"fixint", "int8", "int16", "uint8", "uint16"} /\ c.ep \in {"v2.insert", "v2.update"}
     [] name = "C18-msgpack-dup-key-any" ->
          \* a MessagePack map that repeats a key whose field is decoded into an `any` (v1 metadata): recovered panic, 500
          /\ c.ep \in {"v1.insert", "v1.update"} /\ c.enc = "mp" /\ Quiet500(e)
